@@ -378,5 +378,5 @@ def c11(ctx):
 @prop('C06', level='model_checking', title='maps behave as finite maps')
 def c06(ctx):
     q = ctx.quick
-    only = ['H_map_p0_ops2', 'H_map_p7_ops1', 'H_map_p8_ops1', 'H_map_clear_refill', 'H_map_clear_regrow', 'H_map_clear_rounds', 'H_map_nil'] if q else None
+    only = ['H_map_p0_ops2', 'H_map_p7_ops1', 'H_map_p8_ops1', 'H_map_clear_refill', 'H_map_clear_regrow', 'H_map_clear_rounds', 'H_map_chain2', 'H_map_nil'] if q else None
     return [rt_job(ctx, 'map', [H(ctx, 'C06', 'map_h.go')], unwind=200, deadline_s=900 if q else 3000, only=only)]
